@@ -44,6 +44,11 @@ int ep2_cmp(const ep2_t p, const ep2_t q) {
 		return RLC_EQ;
 	}
 
+	/* The identity is different from every finite point, whatever its coordinates hold. */
+	if (ep2_is_infty(p) || ep2_is_infty(q)) {
+		return RLC_NE;
+	}
+
 	ep2_null(r);
 	ep2_null(s);
 
